@@ -153,6 +153,41 @@ def tu_domains(run, want_sub, masks_fn):
     return lines
 
 
+def wide_tu_ops(rng, count, extra_mask):
+    """wide / tall ternary matrices: few lines one way, many the other (the greedy hereditary search works on chunks of lines);
+    network matrices with 0-2 corrupted entries and sparse random matrices, both orientations, greedy and naive search"""
+    ops = []
+    while len(ops) < count:
+        small, big = rng.randint(2, 5), rng.randint(10, 48)
+        if rng.random() < 0.6:
+            nn = small + 1
+            ne = small + big
+            edges = rand_multigraph(rng, nn, ne, loops=False)
+            forest = spanning_forest(rng, nn, edges)
+            if len(forest) != small:
+                continue
+            fs = set(forest)
+            cof = [i for i in range(ne) if i not in fs]
+            rev = [rng.random() < 0.5 for _ in range(ne)]
+            e = list(cycle_matrix(nn, edges, forest, cof, signed=True, rev=rev))
+            m, n = small, len(cof)
+            for _ in range(rng.choice((0, 1, 1, 2))):
+                k = rng.randrange(m * n)
+                e[k] = rng.choice([v for v in (-1, 0, 1) if v != e[k]])
+        else:
+            m, n = small, big
+            e = list(rand_mat(rng, m, n, (1, -1), rng.choice((0.15, 0.3, 0.5))))
+        if rng.random() < 0.5:
+            e = [e[i * n + j] for j in range(n) for i in range(m)]
+            m, n = n, m
+        mask = (DEFAULT_MASK & ~3) | extra_mask
+        if rng.random() < 0.3: mask |= B_NAIVE
+        if rng.random() < 0.2: mask = (mask & ~3) | rng.choice((1, 2)) if min(m, n) <= 4 and max(m, n) <= 16 else mask
+        ops.append("tu %d %s" % (mask, mat_tokens(m, n, e)))
+    return ops
+
+
+
 @check("C01")
 def c01(run):
     quick = run.tier == "quick"
@@ -176,7 +211,9 @@ def c01(run):
         e = rand_mat(rng, m, n, (-3, -2, -1, 1, 2, 3), 0.6)
         opts.append("tu %d %s" % (rng.choice(masks), mat_tokens(m, n, e)))
     run.batch("option-product", opts, "asan")
-    return dict(rule="exhaustive: all {-1,0,1} matrices of shapes <=3x3, 2x4, 4x2 (thorough: <=3x4, 4x3) under all three algorithms and "
+    run.batch("wide-and-tall", wide_tu_ops(rng, 400 if quick else 6000, 0), "plain")
+    return dict(rule="wide/tall 2-5 x 10-48 network matrices with corrupted entries and sparse random matrices (oracle still exact); "
+                "exhaustive: all {-1,0,1} matrices of shapes <=3x3, 2x4, 4x2 (thorough: <=3x4, 4x3) under all three algorithms and "
                 "all 0/1 matrices 4x4, 3x4, 4x3 (thorough: up to 4x5/5x4) under a seeded algorithm; seeded 3x3..7x7 matrices under "
                 "default + single-flag deviations + random option masks; matrices with entries in {-3..3} and empty shapes. "
                 "Non-trivial = verdict compared with the brute-force definition (judge said ok); distinct by op line.",
@@ -207,7 +244,10 @@ def c07(run):
         e = rand_mat(rng, m, n, (-3, -2, -1, 1, 2, 3), 0.6)
         opts.append("tu %d %s" % (rng.choice(masks) | WANT_SUB, mat_tokens(m, n, e)))
     run.batch("option-product", opts, "asan")
-    return dict(rule="the C01 domains with a violating submatrix requested, greedy and naive search, all three algorithms; non-trivial = "
+    run.batch("wide-and-tall", wide_tu_ops(rng, 400 if quick else 6000, WANT_SUB), "asan")
+    return dict(rule="the C01 domains with a violating submatrix requested, greedy and naive search, all three algorithms; wide and tall "
+                "matrices (2-5 lines by 10-48, network matrices with corrupted entries and sparse random ones: the chunked greedy deletion "
+                "filter only gets going on many lines); non-trivial = "
                 "a 'no' answer whose returned submatrix the judge validated (in range, square, no repetition, |det|>=2; for ternary "
                 "input det=+-2 and all one-line deletions TU; for other input a single offending entry).",
                 extra={"exhaustive": True})
@@ -287,6 +327,43 @@ def mixed_ops(rng, count, maxdim=6):
     return out
 
 
+class CollectRun:
+    """dry run of a check function: records the op lines it would send instead of executing them"""
+    def __init__(self, pid, tier, seed):
+        import random, hashlib
+        self.pid, self.tier, self.seed = pid, tier, seed
+        self.rng = random.Random((seed * 1000003) ^ int(hashlib.sha256(("collect" + pid).encode()).hexdigest()[:8], 16))
+        self.lines = []
+        self.notes = {}
+        self.ignore_tags = None
+
+    def batch(self, name, lines, flavour="asan", args=(), **kw):
+        if flavour not in ("hash",) and not args:       # batches that need special harness arguments stay with their own check
+            self.lines += [l for l in lines if not l.startswith("@")]
+        return []
+
+
+def all_family_ops(rng, seed, per_family, exclude=("C11", "C18", "C19")):
+    """a sample of the op lines of every other property's generators (so that the cross-cutting checks follow them automatically)"""
+    out = []
+    fam = {}
+    for pid in sorted(CHECKS):
+        if pid in exclude:
+            continue
+        cr = CollectRun(pid, "quick", seed)
+        try:
+            CHECKS[pid](cr)
+        except Exception as e:      # a generator that needs results of its own batches
+            pass
+        lines = cr.lines
+        fam[pid] = len(lines)
+        if len(lines) > per_family:
+            lines = rng.sample(lines, per_family)
+        out += lines
+    rng.shuffle(out)
+    return out, fam
+
+
 @check("C11")
 def c11(run):
     quick = run.tier == "quick"
@@ -307,9 +384,15 @@ def c11(run):
     run.batch("allocator-fidelity-ndebug", st[: len(st) // 2], "ndebug")
     mix = mixed_ops(rng, 4000 if quick else 60000)
     run.batch("mixed-ops-asan", mix, "asan")
+    fam, counts = all_family_ops(rng, run.seed, 1200 if quick else 12000)
+    run.notes["family_ops_available"] = counts
+    run.batch("all-families-asan", fam, "asan")
+    run.batch("all-families-ndebug-asan", rng.sample(fam, len(fam) // 4), "asan_nd")
     return dict(rule="allocator: seeded well-bracketed alloc/free words (sizes around the 4096*2^k stack boundaries) replayed on the real "
                 "allocator of the assert and NDEBUG builds, usage and address alignment compared with the Lean model after every step; "
-                "every other op family under ASan+UBSan+LSan with red zones around scratch chunks: crash, failed assertion, sanitizer "
+                "a seeded sample of the op lines of every other property's generators (collected by dry-running their check functions, so "
+                "new generators are followed automatically) under ASan+UBSan+LSan with red zones around scratch chunks, in the assert and "
+                "the NDEBUG build: crash, failed assertion, sanitizer "
                 "report, leak, unbalanced or out-of-order scratch stack are failures. Non-trivial = judged ok; distinct by op line.",
                 assumptions=["memory safety is observed by sanitizers on the explored inputs, not proved; only the allocator discipline is a theorem"])
 
